@@ -374,6 +374,21 @@ func configs() [][]cred {
 			}
 		}
 	}
+	// the empty password (MySQL: account without password; stored as the empty string, never as
+	// a hash): alone, and first / second / third beside other passwords of the same user
+	out = append(out, []cred{{nsNames[0], "", "clear"}})
+	for _, p := range passwords {
+		for _, f := range two {
+			out = append(out, []cred{{nsNames[0], "", "clear"}, {nsNames[1], p, f}})
+			out = append(out, []cred{{nsNames[0], p, f}, {nsNames[1], "", "clear"}})
+		}
+	}
+	for _, f1 := range two {
+		for _, f3 := range two {
+			out = append(out, []cred{{nsNames[0], "a", f1}, {nsNames[1], "", "clear"}, {nsNames[2], "p:q", f3}})
+			out = append(out, []cred{{nsNames[2], "p:q", f3}, {nsNames[0], "a", f1}, {nsNames[1], "", "clear"}})
+		}
+	}
 	three := []string{"a", "p:q", "密码"}
 	for _, order := range [][]int{{0, 1, 2}, {2, 1, 0}} {
 		for _, f1 := range two {
@@ -409,6 +424,29 @@ func responses(salt []byte, creds []cred, allFlips bool) []resp {
 	wrongSalt := append([]byte{}, salt...)
 	wrongSalt[19] ^= 1
 	for _, c := range creds {
+		if c.Pw == "" {
+			// MySQL: an account without password is proven by the EMPTY auth response (both
+			// plugins); the scramble formulas applied to "" are ordinary wrong responses
+			add("empty_password_correct_empty_response", []byte{})
+			s1 := sha1.Sum(nil)
+			s2 := sha1.Sum(s1[:])
+			x := sha1.Sum(append(append([]byte{}, salt...), s2[:]...))
+			f20 := make([]byte, 20)
+			for i := range f20 {
+				f20[i] = s1[i] ^ x[i]
+			}
+			add("native_formula_applied_to_empty_password", f20)
+			m1 := sha256.Sum256(nil)
+			m1h := sha256.Sum256(m1[:])
+			m2 := sha256.Sum256(append(append([]byte{}, m1h[:]...), salt...))
+			f32 := make([]byte, 32)
+			for i := range f32 {
+				f32[i] = m1[i] ^ m2[i]
+			}
+			add("sha2_formula_applied_to_empty_password", f32)
+			add("one_zero_byte", []byte{0})
+			continue
+		}
 		nat, sh := refNative(salt, c.Pw), refSha2(salt, c.Pw)
 		add("native_correct", nat)
 		add("sha2_correct", sh)
@@ -496,7 +534,7 @@ func main() {
 					w, wns, _, via := reference(kk, sl, rp.b)
 					r.Sample(map[string]interface{}{"case": kk, "reference": [...]string{"reject", "accept", "not defined"}[w], "reference_ns": wns, "via": via})
 				}
-				if rp.kind == "native_correct" || rp.kind == "sha2_correct" || rp.kind == "native_other_users_pw" || rp.kind == "sha2_other_users_pw" {
+				if rp.kind == "native_correct" || rp.kind == "sha2_correct" || rp.kind == "empty_password_correct_empty_response" || rp.kind == "native_other_users_pw" || rp.kind == "sha2_other_users_pw" {
 					// the same proof presented under another user name
 					for _, u := range []string{otherUser, "w"} {
 						kk.User = u
@@ -525,10 +563,10 @@ func main() {
 	r.Set("salts", len(ss))
 	r.Set("user_configurations", len(cfgs))
 	r.Set("universe_salt_x_config", len(jobs))
-	r.Set("rule", "6 salts (0x00.., 0xff.., 01..14, three SHA1-derived) x 111 configurations of user u (1 password x {clear, *HEX, *hex}; every ordered pair of 5 passwords {a, p:q, pässwörd, 密码, 64 x} x {clear,hash}^2; 3 passwords in 2 orders x {clear,hash}^3; each password in its own namespace, registration order = list order) x 3 auth-plugin fields x responses {native/sha2 scramble of each configured password, single-bit flips (all 160/256 for two salts, 6 positions for the others; all in thorough), truncated/extended by one byte, wrong salt, raw SHA1 / SHA1(SHA1), scramble of the stored hash string, empty, zeros, unconfigured and other user's password}; correct proofs are also presented under user v and unknown user w. distinct_nontrivial = distinct (stored forms, plugin, response kind, index of matching password, salt) with an accepted handshake, plus distinct rejected near-miss classes.")
+	r.Set("rule", "6 salts (0x00.., 0xff.., 01..14, three SHA1-derived) x 140 configurations of user u (1 password x {clear, *HEX, *hex}; the EMPTY password (clear) alone, first / second beside each other password x {clear,hash}, and inside 3-password lists; every ordered pair of 5 passwords {a, p:q, pässwörd, 密码, 64 x} x {clear,hash}^2; 3 passwords in 2 orders x {clear,hash}^3; each password in its own namespace, registration order = list order) x 3 auth-plugin fields x responses {native/sha2 scramble of each configured password, single-bit flips (all 160/256 for two salts, 6 positions for the others; all in thorough), truncated/extended by one byte, wrong salt, raw SHA1 / SHA1(SHA1), scramble of the stored hash string, empty, zeros, unconfigured and other user's password}; correct proofs are also presented under user v and unknown user w. distinct_nontrivial = distinct (stored forms, plugin, response kind, index of matching password, salt) with an accepted handshake, plus distinct rejected near-miss classes.")
 	r.Assume("SHA-1 / SHA-256 of the Go standard library are correct")
 	r.Assume("a caching_sha2 proof for a password stored as SHA1 hash cannot be verified by anybody; a proof of the method other than the negotiated plugin is not defined by the statement: both are skipped (counted as not_defined_by_statement)")
 	r.Assume("a panic inside handleHandshakeResponse is recovered by Server.onConn and the connection is closed: counted as a rejection")
-	r.Assume("empty configured passwords are rejected by the control plane (models.User.verify) and are not configured")
+	r.Assume("the empty password is configured in clear form only (MySQL stores no hash for an account without password); the control plane (models.User.verify) refuses it, a file-configured proxy loads it; reference = MySQL's rule: it is proven by the empty auth response and by nothing else")
 	r.Finish()
 }
